@@ -89,6 +89,15 @@ def call_speclib(E, name, args, kwargs, st, node):
         ks = [z3.Int(fresh_name("q")) for _ in range(nparams)]
         body = ops._tb(truth(E.pure_call(f, ks, st)))
         return [(st, z3.ForAll(ks, body) if name.startswith("forall") else z3.Exists(ks, body))]
+    if name in ("forall_keys", "exists_keys"):
+        f = args[0]
+        w = E.bv or 40
+        ks = [z3.BitVec(fresh_name("k"), w) for _ in f.node.args.args]
+        rng = z3.And(*[z3.And(k >= 0, k <= z3.BitVecVal(0xffffffff, w)) for k in ks])
+        body = ops._tb(truth(E.pure_call(f, ks, st)))
+        if name == "forall_keys":
+            return [(st, z3.ForAll(ks, z3.Implies(rng, body)))]
+        return [(st, z3.Exists(ks, z3.And(rng, body)))]
     if name == "ite":
         return [(st, merge(truth(args[0]), args[1], args[2]))]
     if name == "seq_len":
